@@ -171,6 +171,19 @@ def run_tlc_scenario(r: Runner, hist: list):
         r.close()
 
 
+EDGE = (0x00, 0x09, 0x0A, 0x0D, 0x20, 0xFF)
+
+
+def payload(dl: int, sd: int) -> bytes:
+    """Payload bytes of a scenario.  Seeds >= 1000 give contents whose FIRST and LAST byte are NUL / whitespace / 0xFF (bytes
+    that text handling treats specially): 'content-preserving' includes them."""
+    b = bytearray(((sd * 7 + i * 13) % 251 + 1) & 0xFF for i in range(dl))
+    if sd >= 1000 and dl:
+        b[0] = EDGE[(sd - 1000) % 6]
+        b[-1] = EDGE[((sd - 1000) // 6) % 6]
+    return bytes(b)
+
+
 def run_ops_scenario(r: Runner, scn: dict):
     """Harness-generated scenario: {'eb', 'ops': [['add', uri, datalen, seed] | ['close'] | ['merge', eb, [indices]]]}"""
     r.begin(scn["eb"], scn)
@@ -179,7 +192,7 @@ def run_ops_scenario(r: Runner, scn: dict):
         if op[0] == "add":
             _, uri, dl, sd = op
             known = uri in r.cache.uris
-            if r.add(uri, bytes(((sd * 7 + i * 13) % 251 + 1) & 0xFF for i in range(dl))) != "ok" and not known:
+            if r.add(uri, payload(dl, sd)) != "ok" and not known:
                 break  # refused for another reason than a duplicate: the object is abandoned
         elif op[0] == "close":
             files.append(r.close())
@@ -212,7 +225,7 @@ def run_cli(r: Runner, scn: dict):
         from . import c11_extract
         pays = []
         for n, (uri, dl, sd) in enumerate(scn["inputs"]):
-            data = bytes(((sd * 7 + i * 13) % 251 + 1) & 0xFF for i in range(dl))
+            data = payload(dl, sd)
             pays.append((uri, data))
             want.append([it.id(uri), it.id(data)])
             uris.append(uri)
@@ -234,7 +247,7 @@ def run_cli(r: Runner, scn: dict):
     elif scn["sub"] == "from_payloads":
         args = ["cache_create", "from_payloads", "--output-file", out, "--eb-size", scn["eb"]]
         for n, (uri, dl, sd) in enumerate(scn["inputs"]):
-            data = bytes(((sd * 7 + i * 13) % 251 + 1) & 0xFF for i in range(dl))
+            data = payload(dl, sd)
             f = d / f"in{n}.bin"
             f.write_bytes(data)
             args += ["--input", f"{uri},{f}"]
@@ -246,7 +259,7 @@ def run_cli(r: Runner, scn: dict):
             # build each input cache with the verifier's own writer (valid by construction, arbitrary padding style)
             buf = bytearray([0xBF])
             for uri, dl, sd in group["pairs"]:
-                data = bytes(((sd * 7 + i * 13) % 251 + 1) & 0xFF for i in range(dl))
+                data = payload(dl, sd)
                 buf += cborx.dumps(uri) + b"\x5a" + len(data).to_bytes(4, "big") + data
                 pad = group.get("pad", -1)
                 if pad >= 0:
@@ -311,6 +324,10 @@ def gen_sweeps(ctx: core.Check):
             ops.append(["add", "zz", 9, 9])
         ops.append(["close"])
         scns.append({"kind": "rand", "eb": eb, "ops": ops})
+    # (5) payloads whose first / last byte is NUL, whitespace or 0xFF
+    for e in range(36):
+        scns.append({"kind": "edge", "eb": (8, 16, 1)[e % 3], "ops": [["add", "a", 5, 1000 + e], ["add", "b", 1, 1000 + e], ["close"],
+                                                                    ["newcache", 4], ["merge", 0], ["close"]]})
     # (4) padding header switches: raw lengths that need 22..26 and 0xFFFF-ish padding bytes
     for eb in (4096, 65536):
         for p in (2, 3, 22, 23, 24, 25, 26, 255, 256, 257, 258, 259, 260, eb - 1, eb - 2, eb - 3):
@@ -329,7 +346,7 @@ def gen_cli(ctx: core.Check):
         if k % 3 == 0:
             names = list(dict.fromkeys(names))
         scns.append({"kind": "cli", "sub": "from_payloads", "eb": eb,
-                     "inputs": [[nm, rng.choice([0, 1, 7, 16, 300]), rng.randrange(50)] for nm in names]})
+                     "inputs": [[nm, rng.choice([0, 1, 7, 16, 300]), rng.randrange(50) + (1000 if k % 2 else 0)] for nm in names]})
     for k in range(n):
         eb = rng.choice([1, 4, 8, 16, 64, 100])
         names = list(dict.fromkeys(rng.choice(["#app", "#rad", "cache://x", "a", "b" * 24, "#sys"]) for _ in range(rng.randint(1, 4))))
